@@ -3,7 +3,7 @@
 tier=$1; seed=$2; shift 2
 cd /verif
 for c in "$@"; do
-  VERIF_SEED=$seed VERIF_MAX_VIOL=5000 VERIF_DUMP_VIOL=/verif/measure/${c}_${tier}_${seed}.json VERIF_EVIDENCE_DIR=/tmp/meas_ev VERIF_REPLAY_DIR=/tmp/meas_ev \
+  VERIF_SEED=$seed VERIF_MAX_VIOL=5000 VERIF_DUMP_VIOL=/verif/measure/${c}_${tier}_${seed}.json VERIF_BASELINE_OUT=/verif/measure/base_${c}_${tier}_${seed}.json VERIF_NO_BASELINE=1 VERIF_EVIDENCE_DIR=/tmp/meas_ev VERIF_REPLAY_DIR=/tmp/meas_ev \
     ./bin/check $c --tier $tier > /tmp/meas_ev_${c}_${tier}_${seed}.log 2>&1
   tail -1 /tmp/meas_ev_${c}_${tier}_${seed}.log
 done
